@@ -129,3 +129,9 @@ Example C02_teardown_needs_quiet_start :
   forallb (fun e => match e with ECommit ws ok _ => ok && all_wok ws | ETxFail => false | ESendFail _ _ => false | _ => true end)
           (log_of y) = true.
 Proof. exact teardown_needs_quiet_start. Qed.
+
+(* the drain clause with a send parked in the plugin stream when Teardown begins *)
+Example C02_held_send_teardown_must_drain :
+  accepts held_cfg (held_log false) = false /\ Mon_C02 true held_cfg (held_log false) = false /\
+  accepts held_cfg (held_log true) = true /\ Mon_C02 true held_cfg (held_log true) = true.
+Proof. pose proof held_send_teardown_must_drain as H. tauto. Qed.
